@@ -158,6 +158,41 @@ theorem replaceHttps_idem' (w : List Rune) : replaceHttps (replaceHttps w) = rep
     exact hno r7 rfl rfl
   | case3 => rfl
 
+theorem fixHttpsHead_nomatch (l : List Rune)
+    (h : ∀ rest, l ≠ 72 :: 116 :: 116 :: 112 :: 115 :: 58 :: 47 :: 47 :: rest) :
+    fixHttpsHead l = l := by
+  rw [fixHttpsHead]
+  intro rest e
+  exact h rest e
+
+/-- the head rewrite leaves no leading "Https://" -/
+theorem fixHttpsHead_no_head (w : List Rune) :
+    ∀ rest, fixHttpsHead w ≠ 72 :: 116 :: 116 :: 112 :: 115 :: 58 :: 47 :: 47 :: rest := by
+  fun_cases fixHttpsHead w with
+  | case1 r => intro rest; simp
+  | case2 => rename_i hno; intro rest e; exact hno rest e
+
+/-- the scheme rewrite creates no leading "Https://" -/
+theorem fixHttpsHead_replaceHttps (l : List Rune)
+    (h : ∀ rest, l ≠ 72 :: 116 :: 116 :: 112 :: 115 :: 58 :: 47 :: 47 :: rest) :
+    fixHttpsHead (replaceHttps l) = replaceHttps l := by
+  apply fixHttpsHead_nomatch
+  intro Y e
+  obtain ⟨r0, h0, e⟩ := replaceHttps_cons_inv _ _ _ (by decide) e
+  obtain ⟨r1, h1, e⟩ := replaceHttps_cons_inv _ _ _ (by decide) e.symm
+  obtain ⟨r2, h2, e⟩ := replaceHttps_cons_inv _ _ _ (by decide) e.symm
+  obtain ⟨r3, h3, e⟩ := replaceHttps_cons_inv _ _ _ (by decide) e.symm
+  obtain ⟨r4, h4, e⟩ := replaceHttps_cons_inv _ _ _ (by decide) e.symm
+  obtain ⟨r5, h5, e⟩ := replaceHttps_cons_inv _ _ _ (by decide) e.symm
+  obtain ⟨r6, h6, e⟩ := replaceHttps_cons_inv _ _ _ (by decide) e.symm
+  obtain ⟨r7, h7, e⟩ := replaceHttps_cons_inv _ _ _ (by decide) e.symm
+  subst h0 h1 h2 h3 h4 h5 h6 h7
+  exact h r7 rfl
+
+theorem normalizeToken_idem' (w : List Rune) : normalizeToken (normalizeToken w) = normalizeToken w := by
+  unfold normalizeToken
+  rw [fixHttpsHead_replaceHttps _ (fixHttpsHead_no_head w), replaceHttps_idem']
+
 open LC.V2Env in
 theorem https_http' (r : List Rune) :
     replaceHttps (lit "https://" ++ r) = replaceHttps (lit "http://" ++ r) := by
